@@ -30,6 +30,7 @@ pub fn ksf_for(s: &dyn Proto, argon_default_weight: u32) -> BoxedStrategy<Option
     match s.meta().ksf {
         KsfKind::Dyn => gen::ksf_sel(argon_default_weight),
         KsfKind::RealIdentity => prop_oneof![Just(None), Just(Some(KsfSpec::Identity))].boxed(),
+        KsfKind::Zst => prop_oneof![Just(None), Just(Some(KsfSpec::H(ksf::ZST_FAMILY)))].boxed(),
         KsfKind::RealArgon2 => prop_oneof![
             2 => Just(None),
             1 => Just(Some(KsfSpec::Argon2Default)),
